@@ -22,7 +22,7 @@ fn spec(t: Tier) -> Spec {
     Spec {
         id: "C10",
         level: "fault_enumeration",
-        rule: format!("every ordered forest with <= {} nodes over leaves (file, empty directory, link to an outside file, link to an outside directory holding a file (one outside directory per link), dangling link) and directories, as the content of r/; (sibling names a, b., c, d.., ..., f: some end in a dot) x {} expressions before -delete ({:?}); x -P -H -L; x starting points r | lr (a link to r) | r s | s r (s a second fixed tree, so that a failed removal can lie under a starting point that is not the last); for the starting point r also x depth bounds -maxdepth 1 | -mindepth 1 | -mindepth 1 -maxdepth 1 | -maxdepth 2 | -mindepth 2 (entries outside the bounds are neither matched nor removed; a directory at the depth limit still holds its children, so its removal must fail). Removal faults arise by construction (a matched directory with an unmatched child: rmdir fails) — every placement the expressions and trees produce is enumerated. For each case the tree is built twice: (1) the real find runs `-depth EXPR -print` and the output must be the reference list of matched entries in depth-first order; (2) on the rebuilt tree the real find runs `EXPR -delete -printf 'D %p' -o -printf 'N %p'`: the D lines must be exactly the removals the reference simulation predicts, in order (a directory only when all its children were removed; a link itself, never its target), N lines everything else incl. failed removals, exit status and a diagnostic iff a removal failed, walk not stopped; (3) the snapshot (path, type, mode, size, link target, content hash, link count) of the whole sandbox after the run must equal the predicted one: nothing else changed inside or outside. For the starting point r under -L the follow mode is also given as the word -follow (before the tests, and after -delete). Every tree is also walked from inside r/ with the starting point spelled ., ./, ./., .//, ././ (the current directory cannot be removed through such a name: `.` is passed over silently, every other spelling must fail with a diagnostic, -delete false and a non-zero status; everything below is removed as predicted). Unprivileged slice: `find r -delete` as uid 65534 on a tree with a file in a directory without write permission, files in a sticky directory owned by root (one the user's own), a link to a read-only file outside: exactly the removable entries go, the others and the link's target keep mode, owner and content, refusals are diagnosed with a non-zero status. Every tree is also run with `-delete -delete`: the second removal of an entry that is already gone must fail (diagnostic, -delete false, exit != 0). undecodable-names slice: entries named by bytes that are not valid UTF-8 are removed themselves (three expressions), look-alikes spelled with U+FFFD stay; non-trivial = case in which at least one entry is matched and at least one is not, or a removal fails", max_nodes(t), EXPRS.len(), EXPRS),
+        rule: format!("every ordered forest with <= {} nodes over leaves (file, empty directory, link to an outside file, link to an outside directory holding a file (one outside directory per link), dangling link) and directories, as the content of r/; (sibling names a, b., c, d.., ..., f: some end in a dot) x {} expressions before -delete ({:?}); x -P -H -L; x starting points r | lr (a link to r) | r s | s r (s a second fixed tree, so that a failed removal can lie under a starting point that is not the last); for the starting point r also x depth bounds -maxdepth 1 | -mindepth 1 | -mindepth 1 -maxdepth 1 | -maxdepth 2 | -mindepth 2 (entries outside the bounds are neither matched nor removed; a directory at the depth limit still holds its children, so its removal must fail). Removal faults arise by construction (a matched directory with an unmatched child: rmdir fails) — every placement the expressions and trees produce is enumerated. For each case the tree is built twice: (1) the real find runs `-depth EXPR -print` and the output must be the reference list of matched entries in depth-first order; (2) on the rebuilt tree the real find runs `EXPR -delete -printf 'D %p' -o -printf 'N %p'`: the D lines must be exactly the removals the reference simulation predicts, in order (a directory only when all its children were removed; a link itself, never its target), N lines everything else incl. failed removals, exit status and a diagnostic iff a removal failed, walk not stopped; (3) the snapshot (path, type, mode, size, link target, content hash, link count) of the whole sandbox after the run must equal the predicted one: nothing else changed inside or outside. For the starting point r under -L the follow mode is also given as the word -follow (before the tests, and after -delete). Every tree is also walked from inside r/ with the starting point spelled ., ./, ./., .//, ././ (the current directory cannot be removed through such a name: `.` is passed over silently, every other spelling must fail with a diagnostic, -delete false and a non-zero status; everything below is removed as predicted). Unprivileged slice: `find r -delete` as uid 65534 on a tree with a file in a directory without write permission, files in a sticky directory owned by root (one the user's own), a link to a read-only file outside: exactly the removable entries go, the others and the link's target keep mode, owner and content, refusals are diagnosed with a non-zero status. Every tree is also run with `-delete -delete`: the second removal of an entry that is already gone must fail (diagnostic, -delete false, exit != 0). low-descriptor slice: 150 directories (one file each, all hard links to one inode, plus a link to it) walked by the binary under RLIMIT_NOFILE 64: -delete removes every matched entry; undecodable-names slice: entries named by bytes that are not valid UTF-8 are removed themselves (three expressions), look-alikes spelled with U+FFFD stay; non-trivial = case in which at least one entry is matched and at least one is not, or a removal fails", max_nodes(t), EXPRS.len(), EXPRS),
         bound: json!({"max_nodes": max_nodes(t), "expressions": EXPRS, "follow": ["-P","-H","-L"], "roots": ["r","lr","r s","s r"]}),
         assumptions: vec![
             "-empty (whose truth changes as the walk deletes) is outside the check".into(),
